@@ -1,9 +1,213 @@
+import ScenicModel.Gen.CheckerCfg
+import ScenicModel.Gen.DefaultReqsCfg
+import ScenicModel.Model.SceneReqs
+import ScenicModel.Model.BoxOracle
 import Driver.Util
-/-! line protocol for the C02 model (stub: replaced when the property's model is built) -/
+/-! line protocol for the C02 models: default requirements, the two sample checkers (run on whole traces),
+the `falsifiedByInner` polarities, and the exact-geometry oracle.  The configurations are the ones
+regenerated from /repo. -/
 namespace Driver.C02
-open Driver
+open Driver Scenic.Checker Scenic.DefaultReqs Scenic.SceneReqs Scenic.Oracle
+
+def CC := Scenic.Gen.checkerCfg
+def DC := Scenic.Gen.defaultReqsCfg
+
+def commaNats (s : String) : Option (List Nat) :=
+  if s == "-" then some [] else (s.splitOn ",").mapM String.toNat?
+
+def showNats (l : List Nat) : String :=
+  if l.isEmpty then "-" else ",".intercalate (l.map toString)
+
+def tri? : String → Option (Option Bool)
+  | "n" => some none
+  | "t" => some (some true)
+  | "f" => some (some false)
+  | _ => none
+
+def optNat? (s : String) : Option (Option Nat) :=
+  if s == "-" then some none else s.toNat?.map some
+
+def bit? : String → Option Bool
+  | "1" => some true
+  | "0" => some false
+  | _ => none
+
+def bits (s : String) : List Bool := if s == "-" then [] else s.toList.map (· == '1')
+
+def parseInst (s : String) : Option Inst :=
+  match s.splitOn ":" with
+  | [o, a, c, oc, r, ob, nob] => do
+    let o ← bit? o; let a ← tri? a; let c ← bit? c; let oc ← tri? oc; let r ← bit? r
+    let ob ← optNat? ob; let nob ← optNat? nob
+    pure ⟨o, a, c, oc, r, ob, nob⟩
+  | _ => none
+
+def showKind (k : ReqKind) : String :=
+  let body := match k with
+    | .blanket objs => s!"B:{showNats objs}"
+    | .intersection a b => s!"I:{a}:{b}"
+    | .containment o => s!"C:{o}"
+    | .visibility s t occ => s!"V:{s}:{t}:{showNats occ}"
+    | .nonVisibility s t occ => s!"N:{s}:{t}:{showNats occ}"
+    | .user u => s!"U:{u}"
+  body ++ (if k.optional DC then "/1" else "/0")
+
+/-! ### checker traces -/
+
+def splitBar (ws : List String) : List (List String) :=
+  let rec go : List String → List String → List (List String)
+    | [], cur => [cur.reverse]
+    | "|" :: rest, cur => cur.reverse :: go rest []
+    | w :: rest, cur => go rest (w :: cur)
+  go ws []
+
+def rats (s : String) : Option (List Rat) :=
+  if s == "-" then some [] else (s.splitOn ",").mapM parseRat
+
+def parseCost (s : String) : Option Cost :=
+  match s.splitOn ":" with
+  | [a, b] => do
+    let b ← parseRat b
+    if a == "inf" then pure (none, b) else do
+      let a ← parseRat a
+      pure (some a, b)
+  | _ => none
+
+def showOutcome (ev : List (Nat × Bool)) (o : Outcome) : String :=
+  showNats (ev.map (·.1)) ++ "=" ++ match o with
+    | .accept => "A"
+    | .reject id => s!"R{id}"
+    | .crash => "X"
+
+def mkReqs (opt act : List Bool) : List Req :=
+  (List.range opt.length).map fun i => ⟨i, opt.getD i false, act.getD i false⟩
+
+def lookup (l : List Bool) (i : Nat) : Bool := l.getD i false
+
+def wrun (B : Nat) (given : Bool) (opt : List Bool) : State → List (List String) → List String → Option (List String × State)
+  | st, [], acc => some (acc.reverse, st)
+  | st, call :: rest, acc =>
+    match call with
+    | act :: fals :: ts :: more => do
+      let ts ← rats ts
+      let reqs := mkReqs opt (bits act)
+      let f := lookup (bits fals)
+      let key ← if given then
+          match more with
+          | [cs] => do
+            let cs ← (cs.splitOn ",").mapM parseCost
+            pure (fun (r : Req) => cs.getD r.id (none, 0))
+          | _ => none
+        else pure (st.key B)
+      let (ev, out) := weightedDecide CC key reqs f
+      let st' := applyMetrics CC st ev ts
+      wrun B given opt st' rest (showOutcome ev out :: acc)
+    | _ => none
+
+def showState (st : State) : String :=
+  " ".intercalate (st.map fun s => s!"{s.sumAcc}:{showRat s.sumTime}")
+
+def brun (reqs0 : List Req → List Req) (opt : List Bool) : List (List String) → List String → Option (List String)
+  | [], acc => some acc.reverse
+  | call :: rest, acc =>
+    match call with
+    | [act, fals] =>
+      let reqs := reqs0 (mkReqs opt (bits act))
+      let (ev, out) := basicLoop CC (lookup (bits fals)) reqs
+      brun reqs0 opt rest (showOutcome ev out :: acc)
+    | _ => none
+
+/-! ### geometry -/
+
+def ints (s : String) (sep : String) : Option (List Int) := (s.splitOn sep).mapM String.toInt?
+
+def parseV3 (s : String) : Option V3 := do
+  match ← ints s "," with
+  | [x, y, z] => pure (x, y, z)
+  | _ => none
+
+def parsePts (s : String) : Option (List V3) :=
+  if s == "-" then some [] else (s.splitOn ";").mapM parseV3
+
+def parseMesh (s : String) : Option Mesh :=
+  match s.splitOn "#" with
+  | [vs, fs] => do
+    let vs ← parsePts vs
+    let fs ← (fs.splitOn ";").mapM fun f => do
+      match ← commaNats f with
+      | [i, j, k] => pure (i, j, k)
+      | _ => none
+    pure ⟨vs, fs⟩
+  | _ => none
+
+def parseRing (s : String) : Option (List (Int × Int)) :=
+  (s.splitOn ";").mapM fun p => do
+    match ← ints p "," with
+    | [x, y] => pure (x, y)
+    | _ => none
 
 def handle : List String → String
+  | "defaults" :: ego :: objs :: insts => (do
+      let ego ← optNat? ego
+      let objs ← commaNats objs
+      let insts ← insts.mapM parseInst
+      pure (match generate DC insts objs ego with
+        | none => "err"
+        | some ks => if ks.isEmpty then "ok" else "ok " ++ " ".intercalate (ks.map showKind))).getD "bad-op"
+  | "wrun" :: b :: mode :: opt :: "|" :: calls => (do
+      let B ← b.toNat?
+      let opt := bits opt
+      let (outs, st) ← wrun B (mode == "g") opt (State.init B opt.length) (splitBar calls) []
+      pure (" ".intercalate outs ++ " | " ++ showState st)).getD "bad-op"
+  | "basic" :: icc :: opt :: blanket :: inter :: "|" :: calls => (do
+      let icc ← bit? icc
+      let opt := bits opt
+      let sel := basicSelect CC icc (lookup (bits blanket)) (lookup (bits inter))
+      let chosen : List Req := sel (mkReqs opt (opt.map fun _ => true))
+      let outs ← brun sel opt (splitBar calls) []
+      pure (s!"sel:{showNats (chosen.map Req.id)} " ++ " ".intercalate outs)).getD "bad-op"
+  | ["fals", "I", a, b, x] => (do
+      let a ← bit? a; let b ← bit? b; let x ← bit? x
+      let w : World := ⟨fun i => if i == 0 then a else b, fun _ => true, fun _ _ => x, fun _ => true,
+        fun _ _ _ => true, fun _ => false, fun _ => false⟩
+      pure (if falsified DC w (.intersection 0 1) then "1" else "0")).getD "bad-op"
+  | ["fals", k, x] => (do
+      let x ← bit? x
+      let w : World := ⟨fun _ => false, fun _ => true, fun _ _ => x, fun _ => x, fun _ _ _ => x, fun _ => x, fun _ => x⟩
+      let kind ← match k with
+        | "C" => some (ReqKind.containment 0)
+        | "V" => some (ReqKind.visibility 0 1 [])
+        | "N" => some (ReqKind.nonVisibility 0 1 [])
+        | "U" => some (ReqKind.user 0)
+        | "B" => some (ReqKind.blanket [])
+        | _ => none
+      pure (if falsified DC w kind then "1" else "0")).getD "bad-op"
+  | ["activates", u, p] => (do
+      let u ← parseRat u; let p ← parseRat p
+      pure (if activates Scenic.Gen.activationCmpLe u p then "1" else "0")).getD "bad-op"
+  | ["cfg"] => s!"buffer={Scenic.Gen.defaultBufferSize} icc={DC.initialCollisionCheck}"
+  | ["sat", m, a, b] => (do
+      let m ← m.toInt?; let a ← parseMesh a; let b ← parseMesh b
+      pure (match sat m a b with
+        | .separated => "sep" | .penetrating => "pen" | .undecided => "und")).getD "bad-op"
+  | ["cmesh", m, c, pts] => (do
+      let m ← m.toInt?; let c ← parseMesh c; let pts ← parsePts pts
+      pure (match halfspaces m c.planes pts with
+        | .inside => "in" | .outside => "out" | .undecided => "und")).getD "bad-op"
+  | ["cpoly", m, ring, pts] => (do
+      let m ← m.toInt?; let ring ← parseRing ring; let pts ← parsePts pts
+      pure (if signedArea2 ring ≤ 0 || !ringConvex ring then "nonconvex" else
+        match halfspaces m (polygonPlanes ring) pts with
+        | .inside => "in" | .outside => "out" | .undecided => "und")).getD "bad-op"
+  | "los" :: m :: eye :: centre :: targets :: occ => (do
+      let m ← m.toInt?; let eye ← parseV3 eye; let centre ← parseV3 centre
+      let targets ← parsePts targets; let occ ← occ.mapM parseMesh
+      pure (match lineOfSight m eye centre targets occ with
+        | .blocked => "blocked" | .clear => "clear" | .undecided => "und")).getD "bad-op"
+  | ["dist2", eye, pts] => (do
+      let eye ← parseV3 eye; let pts ← parsePts pts
+      let d ← distSqToAABB eye pts
+      pure (toString d)).getD "bad-op"
   | _ => "bad-op"
 
 end Driver.C02
